@@ -211,9 +211,34 @@ def trimmed(x, p):
         counts[s_] = n if s_ == sec else \
             {'absent': None, 'one row': 1, 'full': tot}[others]
     text, row_mem = trimmed_text(counts)
+    if x.choice('after_other_load', [False, True]):
+        # another cart, with every section filled, was loaded earlier in the
+        # same process: nothing of it may show up in this one
+        full = {}
+        for s_ in ORDER:
+            full[s_] = REGION[s_][0] // REGION[s_][1]
+        other, _ = trimmed_text(full, code=b'y=2\n')
+        P8Formatter.from_file(hx.MemStream(other), filename='o.p8')
     g = P8Formatter.from_file(hx.MemStream(text), filename='x.p8')
     for s_ in ORDER:
         if s_ not in row_mem:
+            # a section the file does not have: the blank-cart region (no
+            # label at all)
+            if s_ == 'label':
+                x.check('a cart without a label section has no label',
+                        g.label is None)
+                continue
+            data = list(getattr(g, s_)._data)
+            if REGION[s_][2] == 0:
+                exp_abs = [0] * REGION[s_][0]
+            elif s_ == 'music':
+                exp_abs = MUSIC_DEFAULT * 64
+            else:
+                exp_abs = []
+                for r in range(64):
+                    exp_abs += [0] * 64 + [0, 1 if r == 0 else 16, 0, 0]
+            x.check('an absent section loads as the blank-cart region',
+                    data == exp_abs, info=s_)
             continue
         sz, rb, default = REGION[s_]
         data = getattr(g, s_)._data
